@@ -522,6 +522,7 @@ func (w *World) typedNodeSlice(l []Value, depth int) interface{} {
 		return nil
 	}
 	var et reflect.Type
+	mixed := false
 	elems := make([]interface{}, len(l))
 	for i, e := range l {
 		switch e.K {
@@ -530,13 +531,16 @@ func (w *World) typedNodeSlice(l []Value, depth int) interface{} {
 			elems[i] = w.toGo(e, depth+1)
 			t := reflect.TypeOf(elems[i])
 			if et != nil && et != t {
-				// members of different Go types: a slice typed by a non-empty Go interface they all satisfy
-				return nodeIfaceSlice(elems)
+				mixed = true
 			}
 			et = t
 		default:
 			return nil
 		}
+	}
+	if mixed {
+		// members of different Go types: a slice typed by a non-empty Go interface they all satisfy
+		return nodeIfaceSlice(elems)
 	}
 	if et == nil || et.Kind() != reflect.Ptr {
 		return nil
